@@ -48,3 +48,37 @@ Check C07_fish_script_constants :
     /\ forall (k : N) (d : string), In (k, d) (number_from 0 (descr_set (t_literals (a_main a)))) ->
                                     In (SSet "descrs" (Some (k + 1)) [IStr d]) (read_stmts Fish command s).
 Print Assumptions C07_fish_script_constants.
+
+(** the hypotheses are inhabited and the statements compute: a grammar whose literal and descriptions
+    contain double quotes, backslashes, dollars and backticks *)
+Definition exq_lit : string := "a""b\c$d`e".
+Definition exq_d1 : string := "say ""hi"" \ $HOME `id`".
+Definition exq_d2 : string := "$(rm -rf /) \"" ``".
+Definition exq_cdfa : cdfa :=
+  mkcdfa (mkdfa 0 [(0, [(0, 1); (1, 1)])] [1] [ILit exq_lit (Some exq_d1) 0; ILit "plain" (Some exq_d2) 0]) [].
+Definition exq_om : list (string * string) := [(exq_lit, exq_d1); ("plain", exq_d2)].
+
+Example ex_C07_zsh_script_constants :
+  match EmitZsh.script_of_dfa "cmd" "cmd completion script v0" exq_cdfa exq_om [] [] with
+  | Ok (s, valid) =>
+      valid = true
+      /\ flat_map (fun st => match st with SLits "literals" l => [l] | _ => [] end) (read_stmts Zsh "cmd" s) = [[exq_lit; "plain"]]
+      /\ flat_map (fun st => match st with SStr "descriptions" k d => [(k, d)] | _ => [] end) (read_stmts Zsh "cmd" s)
+         = [(0, exq_d1); (1, exq_d2)]
+  | _ => False
+  end.
+Proof. vm_compute. repeat split. Qed.
+Print Assumptions ex_C07_zsh_script_constants.
+
+Example ex_C07_fish_script_constants :
+  match EmitFish.script_of_dfa "cmd" "cmd completion script v0" exq_cdfa exq_om [] [] with
+  | Ok (s, valid) =>
+      valid = true
+      /\ flat_map (fun st => match st with SSet "literals" None l => [l] | _ => [] end) (read_stmts Fish "cmd" s)
+         = [[IStr exq_lit; IStr "plain"]]
+      /\ flat_map (fun st => match st with SSet "descrs" (Some k) l => [(k, l)] | _ => [] end) (read_stmts Fish "cmd" s)
+         = [(1, [IStr exq_d1]); (2, [IStr exq_d2])]
+  | _ => False
+  end.
+Proof. vm_compute. repeat split. Qed.
+Print Assumptions ex_C07_fish_script_constants.
